@@ -89,6 +89,7 @@ type FuncVC struct {
 	unsup        []string
 	noTerm       []string        // loops with neither a measure nor an error-exit obligation
 	defKeys      map[string]bool // heap keys that carry a definedness ghost (leaves of the outs parameters)
+	assignLeaves map[string][]Term // the function's own assigns clause, resolved at entry
 	dirtyKeys    map[string]bool // heap keys that carry a written-since-entry ghost (leaves of the pure operands)
 	staleOps     map[string]bool // pointer parameters that are operands only (neither outs nor assigned)
 	prov         map[ssa.Value]map[string]bool
@@ -352,7 +353,40 @@ func (vc *FuncVC) logWrite(key string, idx Term, s Sort) {
 	vc.writes = append(vc.writes, writeRec{key, idx.S, s})
 }
 
+// writeAllowed: the location key[idx] is fresh (allocated by this call) or listed in the function's assigns clause.
+// Checked at every store and for everything a callee may assign: unlike the frame comparison at the returns it
+// also rules out a write that is undone before returning (C18: a transient write to shared state is a race).
+func (vc *FuncVC) writeAllowed(key string, idx Term) Term {
+	if vc.assignLeaves == nil {
+		vc.assignLeaves = map[string][]Term{}
+		e0 := vc.env(vc.entry, nil)
+		for _, ax := range vc.fc.Assigns {
+			for _, lf := range vc.lvalue(e0, ax) {
+				vc.assignLeaves[lf.Key] = append(vc.assignLeaves[lf.Key], lf.Idx)
+			}
+		}
+	}
+	// address 0 is nil: the leaves of a nil (optional) destination are a modelling artefact, nothing is written there
+	g := Or(Ge(idx, vc.entry.cnt), Eq(idx, IntLit(0)))
+	for _, a := range vc.assignLeaves[key] {
+		g = Or(g, Eq(idx, a))
+	}
+	return g
+}
+
+func (vc *FuncVC) checkWrite(key string, idx Term, what string) {
+	if !vc.fc.HasAssigns || vc.discovery > 0 || strings.HasPrefix(key, "def.") {
+		return
+	}
+	g := vc.writeAllowed(key, idx)
+	if g.S == "true" {
+		return
+	}
+	vc.oblige("F", fmt.Sprintf("write/%s#%d", key, vc.ord("write")), vc.reach[vc.curBlock], g, []string{"C06", "C18"}, vc.curPos, "only fresh memory and the assigns set are ever written (no transient writes either): "+what)
+}
+
 func (vc *FuncVC) storeLeaf(st *State, key string, idx Term, v Term) {
+	vc.checkWrite(key, idx, key)
 	vc.logWrite(key, idx, v.Sort)
 	vc.store(st, key, idx, v)
 	vc.markDef(st, key, idx, TTrue)
